@@ -618,6 +618,7 @@ fn c14_profiles() -> Vec<(&'static str, Profile, u32, u32)> {
     p.o_cause = 10;
     p.post_pct = 30;
     p.max_ops = 35;
+    p.long_dispatch_pct = 6;
     vec![("hist", p, 40000, 750000)]
 }
 
@@ -629,6 +630,9 @@ pub static C14: HistProp = HistProp {
     classes: |f, c| {
         if f.lifecycle_updates > 0 {
             c.push("lifecycle_source_updated");
+        }
+        if f.long_dispatch_with_synthetic > 0 {
+            c.push("long_timeout_dispatch_with_synthetic_event_pending");
         }
         if f.failed_registrations > 0 {
             c.push("failed_registration");
